@@ -165,3 +165,8 @@ def distribution(cases, obs):
                 k = f"{o[1][0]}/{o[1][1]}"
                 d["scales"][k] = d["scales"].get(k, 0) + 1
     return d
+
+TECHNIQUE = 'Coq refinement proof: the anchor arithmetic of TimeController refines the abstract scaled/pausable clock, for every operation history over Q + differential correspondence on a virtual raw clock'
+LEVEL_TEXT = "Machine-checked refinement: for every history of read/set-scale/pause/resume/export/load/sleep operations with any rational arguments and any real-time advance between them, every output of the model of time.py equals the output of the abstract clock 'value grows at rate scale while not paused' (hence monotone, still while paused, continuous across scale changes / pause / resume, pure reads and exports, continues after load, sleep(d) lasts d/scale). The model is tied to /repo by re-executing pamiq_core/time.py on a virtual stdlib time module and comparing all three channels exactly (dyadic values) inside Coq, against both the code model and the abstract clock."
+LEVEL_NOTE = 'Trusted: Coq kernel + vm_compute; coq/Model/Clock.v; harness/sim/faketime.py; exactness of float arithmetic on the generated dyadic values. Real time advances only between operations; float rounding not modelled.'
+DESIGN_REF = 'DESIGN.md §4 C06'
